@@ -164,7 +164,8 @@ func Dump(ctx context.Context, db *sql.DB, o DumpOptions) (Catalog, error) {
 				// keep only what follows the table name: expression parts and WHERE clause.
 				s := r[0][0]
 				if i := strings.Index(s, "("); i >= 0 {
-					sqlText = reKwWhere.ReplaceAllString(normExpr(s[i:]), ") WHERE ")
+					// (the direction of each part is in the parts list: the keywords are dropped from the text.)
+					sqlText = reKwWhere.ReplaceAllString(reKwDir.ReplaceAllString(normExpr(s[i:]), "$2"), ") WHERE ")
 				}
 			}
 			expr := false
@@ -248,6 +249,8 @@ var (
 	// name) and left out by atlas' type formatter by design ("a lowered format").
 	reTypeParams = regexp.MustCompile(`\s*\([^)]*\)`)
 )
+
+var reKwDir = regexp.MustCompile(`(?i)\s+(ASC|DESC)\s*(,|\)|$)`)
 
 func normExpr(s string) string {
 	// a default spelled as a double-quoted token is the same string as its single-quoted spelling.
